@@ -13,8 +13,10 @@ import hashlib
 import json
 import os
 import re
+import shutil
 import subprocess
 import sys
+import tempfile
 import time
 
 from .gen import ROOT, REPO
@@ -53,7 +55,7 @@ def unit_text_with_includes(path, seen=None):
 def units_for(prop):
     res = []
     for u in unit_files():
-        txt = unit_text_with_includes(u)
+        txt = open(u).read()   # the unit's own contracts; prelude items are proved wherever they are included
         spec_lines = [l for l in txt.split('\n') if re.match(r'\s*(props|safety)\s*:', l) or re.match(r'\s*\[[A-Z0-9, ]+', l)]
         if any(re.search(r'\b' + prop + r'\b', l) for l in spec_lines):
             res.append(u)
@@ -88,7 +90,8 @@ def decide(prop, tier='quick', seed=0, units=None, jobs=8, quiet=False):
         return 2
     results = []
     with cf.ThreadPoolExecutor(max_workers=jobs) as ex:
-        gen_dir = os.path.join(ROOT, 'gen', '%s-%s' % (prop, tier))
+        os.makedirs(os.path.join(ROOT, 'gen'), exist_ok=True)
+        gen_dir = tempfile.mkdtemp(prefix='%s-%s-' % (prop, tier), dir=os.path.join(ROOT, 'gen'))
         futs = [ex.submit(R.run_unit, u, gen_dir, None, seed or None) for u in units]
         for f in futs:
             results.append(f.result())
@@ -165,6 +168,12 @@ def decide(prop, tier='quick', seed=0, units=None, jobs=8, quiet=False):
             payload['failing_input'] = ce
         else:
             suffix = ' no-failing-input-found'
+        try:
+            keep = os.path.join(REPLAY_DIR, prop, safe(fl.oid) + '.generated.rs')
+            shutil.copy(r.gen_path, keep)
+            payload['generated_file'] = keep
+        except Exception:
+            pass
         json.dump(payload, open(path, 'w'), indent=1)
         lines.append('VIOLATION property=%s replay=%s%s' % (prop, path, suffix))
         rc = 1
@@ -202,6 +211,7 @@ def decide(prop, tier='quick', seed=0, units=None, jobs=8, quiet=False):
         violations=len(seen),
     )
     json.dump(ev, open(os.path.join(EVID_DIR, prop + '.json'), 'w'), indent=1)
+    shutil.rmtree(gen_dir, ignore_errors=True)
     for l in lines:
         print(l)
     if not quiet:
